@@ -139,6 +139,7 @@ var routeMethods = []methodSpec{
 	{name: "GetMore", in: msgAll, out: msgAll},
 	{name: "GetMoreStill", in: msgBodyIn, out: msgBodyOu},
 	{name: "Stream", in: msgAll, out: msgAll, sstrm: true},
+	{name: "Wkt", in: benchPkg + ".WktLike", out: msgBodyOu}, // messages named like well-known types, in another package
 }
 
 type schemaSet struct {
@@ -175,6 +176,15 @@ func buildFileProto(withAnnotations bool) *descriptorpb.FileDescriptorProto {
 				{Name: strp("name"), JsonName: strp("name"), Number: i32p(1), Label: &lbl, Type: &tStr},
 				{Name: strp("file"), JsonName: strp("file"), Number: i32p(2), Label: &lbl, Type: &tMsg, TypeName: strp(".google.api.HttpBody")},
 				{Name: strp("seq"), JsonName: strp("seq"), Number: i32p(3), Label: &lbl, Type: &tI32},
+			}},
+			{Name: strp("Duration"), Field: []*descriptorpb.FieldDescriptorProto{
+				{Name: strp("text"), JsonName: strp("text"), Number: i32p(1), Label: &lbl, Type: &tStr},
+			}},
+			{Name: strp("Empty")},
+			{Name: strp("WktLike"), Field: []*descriptorpb.FieldDescriptorProto{
+				{Name: strp("name"), JsonName: strp("name"), Number: i32p(1), Label: &lbl, Type: &tStr},
+				{Name: strp("duration"), JsonName: strp("duration"), Number: i32p(2), Label: &lbl, Type: &tMsg, TypeName: strp("." + benchPkg + ".Duration")},
+				{Name: strp("empty"), JsonName: strp("empty"), Number: i32p(3), Label: &lbl, Type: &tMsg, TypeName: strp("." + benchPkg + ".Empty")},
 			}},
 			{Name: strp("BodyOut"), Field: []*descriptorpb.FieldDescriptorProto{
 				{Name: strp("file"), JsonName: strp("file"), Number: i32p(1), Label: &lbl, Type: &tMsg, TypeName: strp(".google.api.HttpBody")},
